@@ -295,6 +295,13 @@ def m_returns_default(draw, ir):
     )
 
 
+def m_returns_default_plain(draw, ir):
+    """A return entry with prose, a type WITHOUT brackets and a code expression as default."""
+    m_returns(draw, ir)
+    ir["returns"]["typ"] = draw(st.sampled_from(("Model", "int", "tf.keras.Model", "np.ndarray")))
+    ir["returns"]["default"] = draw(st.sampled_from(("```self.model```", "```np.empty(0)```", "```foo(5)```")))
+
+
 def m_returns_untyped(draw, ir):
     ir["returns"] = OrderedDict(doc=draw(prose()))
 
